@@ -91,7 +91,7 @@ class C04(Prop):
         cfg["gen"] = {"depth": r.choice([1, 2, 2, 3]), "max_mods": r.choice([1, 2]), "max_ports": r.choice([2, 4]),
                       "max_wires": r.choice([1, 3, 5]), "max_insts": r.choice([1, 3, 5]), "max_prims": r.choice([1, 3]),
                       "order": r.choice(["bottom_up", "top_down", "shuffled"]), "positional_rate": r.choice([0.0, 0.3])}
-        cfg["render"] = {"ws": "plain", "comment_rate": 0.0, "wire_kw": "wire"}
+        cfg["render"] = {"ws": "plain", "comment_rate": 0.0, "wire_kw": "wire", "split_attrs": r.random() < 0.5}
         cfg["transforms"] = r.choice([[], [], ["uniquify"], ["clone"], ["uniquify", "flatten"], ["clone", "uniquify"]])
         opts = {}
         if r.random() < 0.5:
